@@ -120,6 +120,37 @@ def gcRepo (s : State) (r : String) : State :=
   let ix2 := inIdx0.foldl (fun ix g => if rp1.hasDigStr g then ix else rmDesc ix { dig := g }) ix1
   s.setRepo { rp1 with index := ix2 }
 
+/-! ### ages: what makes a blob recent again
+
+`old` is only read by the collection.  The store refreshes the age of a blob whenever `blobCreate` is asked for it: a
+session that completes (rename over the file), and - since the repair F38 - a monolithic upload, mount, manifest push or
+referrers update that finds its content already present.  No handler theorem speaks about ages, so the refresh is a
+wrapper around `step` used by the driver instead of a change of every store primitive. -/
+def Req.repo : Req → String
+  | .uPost r _ | .uPatch r _ _ | .uPut r _ _ | .uGet r _ | .uDel r _ | .bGet r _ _ _ | .bDel r _
+  | .mPut r _ _ _ _ _ | .mGet r _ _ _ _ | .mDel r _ | .tags r _ _ | .refs r _ _ _ _ => r
+
+def touchDig (rp : Repo) (d : String) : Repo :=
+  match DigArg.parse d with
+  | .ok dg => { rp with old := rp.old.filter (· ≠ dg) }
+  | .bad => rp
+
+def isRespEntry (d : Desc) : Bool := !d.ann.isNil ∧ d.ann.subj ≠ ""
+
+def stepAged (s : State) (q : Req) : State × Resp :=
+  let (s', o) := step s q
+  let r := q.repo
+  let pre := "blob:" ++ r ++ ":"
+  -- the content this answer acknowledges
+  let ack : List String :=
+    if o.status ≠ 201 then [] else
+    if o.dcd ≠ "" then [o.dcd] else
+    if o.loc.startsWith pre then [(o.loc.drop pre.length).toString] else []
+  -- referrers responses registered by this request
+  let before := (s.repo r).index.manifests.filter isRespEntry
+  let newResp := ((s'.repo r).index.manifests.filter (fun d => isRespEntry d ∧ !before.contains d)).map (·.dig)
+  if (ack ++ newResp).isEmpty then (s', o) else (s'.setRepo ((ack ++ newResp).foldl touchDig (s'.repo r)), o)
+
 /-- Close + New on the same directory, possibly with another configuration (`conf`).
     * directory store: Close collects every open repository (unless read-only), the new server reloads index.json;
     * memory store: everything is lost;
